@@ -120,3 +120,22 @@ claimed["C06"] = (
     "socket of the dead connection and no room keeps its id. Counterexample schedules are replayed natively through instrumented copies of the package's files.",
     "Outside the claim: cutting the TCP stream at byte k, real ping timers, the Engine.IO-level close paths and session-id lookup (C17 covers 'closed sid => error 1'), upgrades in flight, connection state recovery on close.",
     "5 (C06)")
+
+claimed["C02"] = (
+    "Bounded model checking of the two order kernels under all interleavings at synchronisation points (preemption bound 2): (a) wire order / contiguity: two producer goroutines hand packets of 1..3 frames to the "
+    "connection's real send path (serverConn.sendBuffers -> packetQueue.add), one of them two packets in a row, while a consumer drains with the real poll: every frame is on the wire exactly once, the frames of a "
+    "packet are contiguous and in frame order, packets of one goroutine keep their order; (b) handler-entry order: two EVENT packets (the first optionally binary with an attachment) arriving in one Engine.IO payload "
+    "through the real serverConn.onEIOPacket -> onParserFinish -> serverSocket.onPacket -> handler. (b) is VIOLATED on this code base - each decoded packet is dispatched on its own goroutine - and is recorded as "
+    "a known finding (DESIGN.md 0.4, F14), identified by its site so that any other order violation is still reported.",
+    "Outside the claim: more than 2 producers / longer bursts (argument: the critical section is one mutex-protected append), the client-side dispatch (client_manager.go:onParserFinish, same pattern, unless its harness is listed), "
+    "reordering between two physical transports during an upgrade, real transports.",
+    "5 (C02)")
+
+claimed["C05"] = (
+    "Bounded symbolic execution of namespace isolation: (1) header: the namespace written by the real encodeString is the one read back by the real parseHeader for '' , '/' and '/'+x with x any 0..3 (quick) / 0..5 "
+    "(thorough) symbolic comma-free bytes on every packet type - look-alike and prefix names are cases of one symbolic name; (2) routing: a connection that joined a symbolic subset of {/, /a}, a packet of ANY type "
+    "addressed to /, /a, /b (existing, not joined), /zz (not existing) or '' through the real serverConn.onEIOPacket/onParserFinish: dispatched only to the socket of exactly that namespace; non-CONNECT for a namespace "
+    "without a socket, or CONNECT for one already joined, closes the connection and reaches nobody; CONNECT for an existing unjoined namespace attaches the client there and nowhere else; DISCONNECT leaves the other "
+    "namespaces connected; (3) per-namespace adapters, rooms and ack-id counters; a namespace broadcast reaches only that namespace's socket; disconnecting one namespace keeps the other's socket and rooms.",
+    "Outside the claim: the client-side router (Manager.onParserFinish), interleavings of CONNECT replies (sequential here), everything JSON.",
+    "5 (C05)")
